@@ -46,6 +46,10 @@ def mmEntries {K V : Type} [DecidableEq K] (key : V → K) (m : List V) : List (
 /-- `for entry in &m` over a `HashMap<Uid, V>` -/
 def hmEntries {K V : Type} (key : V → K) (m : List V) : List (K × V) := m.map fun v => (key v, v)
 
+/-- `m.get(k)` on a `HashMap<Uid, V>` -/
+def hmGet {K V : Type} [DecidableEq K] (key : V → K) (m : List V) (k : K) : Option V :=
+  m.find? (fun x => key x = k)
+
 def hmContains {K V : Type} [DecidableEq K] (key : V → K) (m : List V) (k : K) : Bool :=
   m.any (fun x => key x = k)
 
